@@ -167,3 +167,46 @@ fn nb_shims() {
     } }
     println!("NB-RESULT name=nb_shims status=ok cases={} key=- detail=std shims and UTF-8 lemmas on all strings<=3 chars over a 6-char alphabet (1-4 byte encodings)", cases);
 }
+
+/// every default matcher of trait Input, on every sub-input (Span) and every cursor, against the contracts of
+/// unit `input` evaluated on rest = s[cursor..end] (bounded cross-check of what Verus proves, plus the release profile)
+#[test]
+fn nb_matchers() {
+    let mut cases = 0u64;
+    let lits: [&'static str; 6] = ["a", "é", "a*", "€", "😀a", ""];
+    macro_rules! fail { ($($t:tt)*) => {{ println!("NB-RESULT name=nb_matchers status=fail cases={} key={}", cases, format!($($t)*)); return; }} }
+    for s in strings(3) {
+        let bs = boundaries(&s);
+        for &a in &bs { for &b in &bs { if a > b { continue; }
+            let base = Span::new(&s, a, b).unwrap().as_input();
+            for adv in 0..3usize {
+                let mut at = base;
+                if !at.skip(adv) { continue; }
+                let cur = at.byte_offset();
+                let rest = &s[cur..b];
+                cases += 1;
+                if at.at_start() != (cur == a) || at.at_end() != (cur == b) { fail!("s={:?},span={}..{},cursor={} detail=at_start/at_end", s, a, b, cur) }
+                // next / match_range / match_char_by: first scalar of rest
+                let first = rest.chars().next();
+                let mut i = at; let r = i.next();
+                if r != first || i.byte_offset() != cur + first.map_or(0, |c| c.len_utf8()) { fail!("s={:?},span={}..{},cursor={} detail=next() returned {:?} and moved to {}", s, a, b, cur, r, i.byte_offset()) }
+                let mut i = at; let r = i.match_range('a'..'\u{20ac}');
+                let want = first.map_or(false, |c| 'a' <= c && c <= '\u{20ac}');
+                if r != want || i.byte_offset() != cur + if want { first.unwrap().len_utf8() } else { 0 } { fail!("s={:?},span={}..{},cursor={} detail=match_range returned {} and moved to {}", s, a, b, cur, r, i.byte_offset()) }
+                let mut i = at; let r = i.match_char_by(|c| c != 'a');
+                let want = first.map_or(false, |c| c != 'a');
+                if r != want || i.byte_offset() != cur + if want { first.unwrap().len_utf8() } else { 0 } { fail!("s={:?},span={}..{},cursor={} detail=match_char_by returned {} and moved to {}", s, a, b, cur, r, i.byte_offset()) }
+                for l in lits.iter() {
+                    let mut i = at; let r = i.match_string(l);
+                    let want = rest.as_bytes().starts_with(l.as_bytes());
+                    if r != want || i.byte_offset() != cur + if want { l.len() } else { 0 } { fail!("s={:?},span={}..{},cursor={},lit={:?} detail=match_string returned {} and moved to {}", s, a, b, cur, l, r, i.byte_offset()) }
+                    let mut i = at; let r = i.match_insensitive(l);
+                    let want = l.len() <= rest.len() && rest.is_char_boundary(l.len()) && rest[..l.len()].eq_ignore_ascii_case(l);
+                    if r != want || i.byte_offset() != cur + if want { l.len() } else { 0 } { fail!("s={:?},span={}..{},cursor={},lit={:?} detail=match_insensitive returned {} and moved to {}", s, a, b, cur, l, r, i.byte_offset()) }
+                    if !s.is_char_boundary(i.byte_offset()) { fail!("s={:?},span={}..{},cursor={},lit={:?} detail=cursor off a boundary", s, a, b, cur, l) }
+                }
+            }
+        } }
+    }
+    println!("NB-RESULT name=nb_matchers status=ok cases={} key=- detail=at_start, at_end, next, match_range, match_char_by, match_string, match_insensitive on all strings<=3 chars over 1-4-byte chars x all spans x 3 cursors", cases);
+}
